@@ -279,8 +279,12 @@ var attrSpecs = []attrSpec{
 		return vInvalid
 	}, true, func(a *d2graph.Attributes) *string { return &a.Shape.Value }},
 	{"direction", []string{"object"}, func(s string) verdict { return enumDomain(s, directions) }, true, func(a *d2graph.Attributes) *string { return &a.Direction.Value }},
-	{"theme-id", []string{"config"}, func(s string) verdict { return enumDomainExact(s, append(append([]string{}, lightThemeIDs...), darkThemeIDs...)) }, false, nil},
-	{"dark-theme-id", []string{"config"}, func(s string) verdict { return enumDomainExact(s, append(append([]string{}, lightThemeIDs...), darkThemeIDs...)) }, false, nil},
+	{"theme-id", []string{"config"}, func(s string) verdict {
+		return enumDomainExact(s, append(append([]string{}, lightThemeIDs...), darkThemeIDs...))
+	}, false, nil},
+	{"dark-theme-id", []string{"config"}, func(s string) verdict {
+		return enumDomainExact(s, append(append([]string{}, lightThemeIDs...), darkThemeIDs...))
+	}, false, nil},
 }
 
 func enumDomainExact(s string, set []string) verdict {
